@@ -778,8 +778,13 @@ def check_lines(ctx, prog):
                         cap = const_val(c['y'])
                 if any(w.get('k') == 'bin' and w.get('op') == '<=' and const_val(w['y']) == 0 for w in walk_expr(s_['c'])) and q.always_exits(s_['then']):
                     ok_eof = True
-    ctx.check(ok_cap and cap is not None and cap <= 65536, 'C09.lines', f['pq'], 'readLine:line length capped inside the loop', fwhere(f), 'cap %s' % cap,
-              'Socket_::readLine has no length cap with an exit inside its read loop: a peer that never sends a newline grows the line without bound')
+    iv = interp_read_line(prog, f)
+    if iv is not None:
+        ctx.evaluations += 3
+        ctx.check(iv[0] == 'ok', 'C09.lines', f['pq'], 'readLine:line length capped inside the loop', fwhere(f), iv[1], iv[1])
+    else:
+        ctx.check(ok_cap and cap is not None and cap <= 65536, 'C09.lines', f['pq'], 'readLine:line length capped inside the loop', fwhere(f), 'cap %s' % cap,
+                  'Socket_::readLine has no length cap with an exit inside its read loop: a peer that never sends a newline grows the line without bound')
     # EOF / error: once read() has returned <= 0, no further read() is reachable (CFG reachability with the result bound)
     rcfg = cfgm.CFG(f)
     reads = [n_ for n_ in rcfg.nodes if n_.kind == 'ev' and n_.e is not None and n_.e.get('k') == 'call' and (n_.e.get('pq') or '').endswith('Socket_::read') and len(n_.e.get('a', [])) == 2]
@@ -940,3 +945,43 @@ def check_headers(ctx, prog):
             ok = True
     ctx.check(ok, 'C09.headers', h['pq'], 'readHeaders:value is everything after the colon', fwhere(h), 'substring(i + 1), trimmed',
               'the header value is not taken from the character right after the colon: "Name:value" loses its first character or reads past the line end')
+
+
+def interp_read_line(prog, f):
+    """readLine() interpreted (scansim) against three peers: one that sends 'x' for ever (the function must give up after at most
+    65536 + 2 bytes, with the error recorded), one that sends "ab\\nc" (the line is "ab", exactly 3 bytes consumed) and one that
+    closes after "ab".  -> ('ok' | 'bad', text) | None when the body is outside the interpreted fragment"""
+    import scansim
+    res = {}
+    for name, script in (('endless', lambda i: ord('x')), ('line', lambda i: [97, 98, 10, 99][i] if i < 4 else None), ('eof', lambda i: [97, 98][i] if i < 2 else None)):
+        st = {'n': 0}
+
+        def read(run, e, args, st=st, script=script):
+            i = st['n']
+            st['n'] += 1
+            if i > 70000:
+                raise scansim.OOB('PEER', i, 70000, e.get('l'))
+            c = script(i)
+            if c is None:
+                return 0
+            run.store(args[0], c, e.get('l'))
+            return 1
+        mems = {'_error': 0, '_handle': 3, '_blocking': 1}
+        r = scansim.Run(prog, f, {}, mems=mems, methods={'read': read, 'available': lambda run, e, a: 1, 'waitInput': lambda run, e, a: 1, '*': 'interp'}, objects=True, budget=[6000000])
+        try:
+            ret = r.run()
+        except scansim.OOB:
+            if name == 'endless':
+                return 'bad', 'readLine() is still reading after 70000 bytes from a peer that never sends a newline: the line grows without bound'
+            return None
+        except (scansim.Unsupported, TypeError, KeyError, IndexError):
+            return None
+        out = r.bufs.get(ret[1]) if isinstance(ret, tuple) and len(ret) == 3 and ret[0] == 'P' else None
+        if out is None:
+            return None
+        res[name] = (st['n'], mems.get('_error'), ''.join(chr(x & 255) for x in out[:-1]))
+    if res['endless'][1] == 0:
+        return 'bad', 'readLine() stops after %d bytes of an endless line but records no error: the truncated line is handled as a complete one' % res['endless'][0]
+    if res['line'] != (3, 0, 'ab') or res['eof'][2] != 'ab':
+        return 'bad', 'readLine() on "ab\\nc" consumes %d byte(s) and returns "%s"; on "ab" + close it returns "%s"' % (res['line'][0], res['line'][2], res['eof'][2])
+    return 'ok', 'interpreted: gives up after %d bytes of an endless line with error %s, returns "ab" for "ab\\n.." (3 bytes consumed) and for "ab" + close' % (res['endless'][0], res['endless'][1])
